@@ -67,6 +67,9 @@ type BinderActor struct {
 	AgentDelay time.Duration
 	agentIdx   map[string]int
 	Fired      map[string]int
+	// BindFail: pods whose pods/binding create fails, value = how many times (>= 99: always)
+	BindFail map[string]int
+	bindFailed map[string]int
 }
 
 func kindOf(obj any) string {
@@ -196,6 +199,16 @@ func NewBinderActor(api *SimAPI, allocTimeout time.Duration) *BinderActor {
 			}
 			var err error
 			if sub == "binding" {
+				if b.BindFail[obj.GetName()] > b.bindFailed[obj.GetName()] {
+					if b.bindFailed == nil {
+						b.bindFailed = map[string]int{}
+					}
+					if b.BindFail[obj.GetName()] < 99 {
+						b.bindFailed[obj.GetName()]++
+					}
+					b.Fired["bind-subresource-failure"]++
+					return post(apierrors.NewInternalError(fmt.Errorf("simulated bind failure")), "create/"+sub, obj, obj.GetName())
+				}
 				err = api.BindPod(obj.(*corev1.Pod), subObj.(*corev1.Binding))
 			} else {
 				err = c.SubResource(sub).Create(ctx, obj, subObj, opts...)
